@@ -274,6 +274,21 @@ class _ShapeNF(ast.NodeTransformer):
                     and len(inner.args) == 1 and isinstance(inner.args[0], ast.GeneratorExp) \
                     and ((inner.func.id == "any") != (inner is not t)):
                 last.body = list(last.body) + [ast.copy_location(ast.Return(value=None), last)]
+        # tail `if A or any(E for x in xs): S`  ->  `if A: S ; return` then `if any(E for x in xs): S` (handled above next time)
+        if "N8" in _OPT and node.body and isinstance(node.body[-1], ast.If) and not node.body[-1].orelse \
+                and not _ends_in_jump(node.body[-1].body) and isinstance(node.body[-1].test, ast.BoolOp) \
+                and isinstance(node.body[-1].test.op, ast.Or):
+            last = node.body[-1]
+            q = last.test.values[-1]
+            if isinstance(q, ast.Call) and isinstance(q.func, ast.Name) and q.func.id == "any" and len(q.args) == 1 \
+                    and isinstance(q.args[0], ast.GeneratorExp) and not any(isinstance(x, (ast.Yield, ast.YieldFrom)) for x in ast.walk(node)):
+                from .inline import clone
+                rest = last.test.values[:-1]
+                first = ast.If(test=rest[0] if len(rest) == 1 else ast.BoolOp(op=ast.Or(), values=rest),
+                               body=[clone(b) for b in last.body] + [ast.Return(value=None)], orelse=[])
+                second = ast.If(test=q, body=list(last.body) + [ast.Return(value=None)], orelse=[])
+                node.body = node.body[:-1] + [ast.fix_missing_locations(ast.copy_location(first, last)),
+                                              ast.fix_missing_locations(ast.copy_location(second, last))]
         self._infn = getattr(self, "_infn", 0) + 1
         try:
             return self.generic_visit(node)
